@@ -301,6 +301,90 @@ def P_C09_front (parsed : Option IDL) (status : String) (emitted : Bool) (same :
     else if same == some false then some "front-end-output-differs-from-generate"
     else none
 
+/-! #### sessions: several calls over one connection, one service with several generated interfaces -/
+
+inductive SStep where
+  /-- generated client call on interface number `i`; mode `call` | `more` | `oneway` | `abandon<K>` (a stream of which
+      only the first K replies are read before the call is dropped) -/
+  | gen (i : Nat) (method : String) (mode : String) (args : Val) (script : List Action)
+  /-- a request written by hand -/
+  | raw (req : Json)
+deriving Repr, Inhabited
+
+inductive SObs where
+  | g (outs : List ClientObs)
+  /-- reply frame read back, or why none was (`busy`, `closed`, `io`) -/
+  | r (reply : Option Json) (tag : String)
+deriving Repr, Inhabited
+
+def abandonCount (mode : String) : Option Nat :=
+  if (mode.toList.take 7) == "abandon".toList then (String.ofList (mode.toList.drop 7)).toNat? else none
+
+def hasOkOutcome : List ClientObs → Bool
+  | [] => false
+  | .ok _ _ :: _ => true
+  | _ :: rest => hasOkOutcome rest
+
+/-- Walks the steps with the one piece of client state that matters (C07): after a stream is dropped before its
+    last reply the connection stays with the dropped call, and every later call must be REFUSED (`ConnectionBusy`) —
+    never answered with a reply that belongs to another call.  While the connection is free every generated call
+    must return exactly what the implementation passed (`checkClient`), whatever was called before on whichever
+    interface, and every hand-written request must be answered with an error. -/
+def sessionWalk (idls : List IDL) : List SStep → List SObs → Bool → Nat → Nat → Option String × Nat
+  | [], [], _, _, expectSeen => (none, expectSeen)
+  | .gen i mn mode args script :: steps, .g outs :: obs, busy, k, expectSeen =>
+    let tag := "step" ++ toString k ++ ": "
+    if busy then
+      if hasOkOutcome outs then (some (tag ++ "stale-reply-returned-to-another-call"), expectSeen)
+      else match outs with
+        | [.verr "busy"] => sessionWalk idls steps obs true (k + 1) expectSeen
+        | _ => (some (tag ++ "call-on-busy-connection-not-refused"), expectSeen)
+    else
+      match idls[i]? with
+      | none => (some (tag ++ "no-such-interface-in-case"), expectSeen)
+      | some idl =>
+        match idl.methods.find? (·.name == mn) with
+        | none => (some (tag ++ "no-such-method-in-case"), expectSeen)
+        | some m =>
+          if !(wellTyped idl.env (.struct m.input) args && script.all (actionWellTyped idl m)) then
+            sessionWalk idls steps obs busy (k + 1) expectSeen
+          else
+            let (expected, busy') : List Action × Bool :=
+              match abandonCount mode with
+              | some n => (script.take n, decide (n < script.length))
+              | none => (script, false)
+            let verdict : Option String :=
+              if mode == "oneway" then
+                (match outs with
+                 | [.okOneway] => none
+                 | _ => some "oneway-client-outcome")
+              else checkClient expected outs
+            match verdict with
+            | some r => (some (tag ++ r), expectSeen)
+            | none => sessionWalk idls steps obs busy' (k + 1) (expectSeen + 1)
+  | .raw _ :: steps, .r reply t :: obs, busy, k, expectSeen =>
+    let tag := "step" ++ toString k ++ ": "
+    if busy then
+      if t == "busy" then sessionWalk idls steps obs true (k + 1) expectSeen
+      else (some (tag ++ "hand-written-request-on-busy-connection"), expectSeen)
+    else
+      match reply with
+      | some j => if (j.get? "error").isSome then sessionWalk idls steps obs false (k + 1) expectSeen
+                  else (some (tag ++ "error-provoking-request-not-answered-with-an-error"), expectSeen)
+      | none => (some (tag ++ "error-provoking-request-not-answered status=" ++ t), expectSeen)
+  | _, _, _, k, expectSeen => (some ("step" ++ toString k ++ ": observation-does-not-match-step"), expectSeen)
+
+/-- `seenFlags`: for every invocation of a recording implementation by a generated call, were the values equal to
+    those the client passed -/
+def P_C08_session (idls : List IDL) (steps : List SStep) (obs : List SObs) (seenFlags : List Bool) : Option String :=
+  match sessionWalk idls steps obs false 0 0 with
+  | (some r, _) => some r
+  | (none, n) =>
+    if seenFlags.any (fun b => !b) then some "server-saw-different-arguments"
+    else if seenFlags.length != n then
+      some ("implementation-saw-" ++ toString seenFlags.length ++ "-of-" ++ toString n ++ "-calls")
+    else none
+
 /-- the build helper on several files in one call: with only accepted, well-formed, Safe-to-generate inputs it
     must succeed and emit for every file what `generate` emits; with a rejected file it must fail with a
     diagnostic and emit nothing for that file -/
